@@ -727,10 +727,14 @@ fn branchy_game(r: &mut Rng) -> Tree {
                     kids: (0..3)
                         .map(|a| PKid {
                             a: format!("a{a}"),
-                            t: Tree::P {
-                                pl: 3 - first,
-                                info: format!("y{j}"),
-                                kids: (0..2).map(|b| PKid { a: format!("b{b}"), t: Tree::T { pay: Num::I(r.range(-3, 3)) } }).collect(),
+                            t: if a == 0 {
+                                Tree::T { pay: Num::I(r.range(-3, 3)) }
+                            } else {
+                                Tree::P {
+                                    pl: 3 - first,
+                                    info: format!("y{j}"),
+                                    kids: (0..3).map(|b| PKid { a: format!("b{b}"), t: Tree::T { pay: Num::I(r.range(-3, 3)) } }).collect(),
+                                }
                             },
                         })
                         .collect(),
@@ -784,10 +788,12 @@ pub fn gen_step2(args: &Args) {
                 if forgetting {
                     // one positive regret, the others distinct and negative: the fall-back rule has no tie to break
                     // (two positive regrets every other time: proportional matching then differs from every fall-back rule)
+                    // (a single positive regret makes the strategy pure, the increment of that action in a VISITED infoset
+                    // exactly zero and the case fragile: mostly two different positive regrets)
                     let hot = r.below(k as u64) as usize;
-                    let hot2 = if r.chance(0.5) { r.below(k as u64) as usize } else { hot };
+                    let hot2 = if r.chance(0.75) { (hot + 1 + r.below(k as u64 - 1) as usize) % k } else { hot };
                     for (j, x) in rv.iter_mut().enumerate() {
-                        *x = if j == hot || j == hot2 { (1 + r.below(3) as i64, 1) } else { (-(1 + j as i64), 1) };
+                        *x = if j == hot { (1, 1) } else if j == hot2 { (2, 1) } else { (-(1 + j as i64), 1) };
                     }
                 }
                 let sv: Vec<(i64, i64)> = (0..k).map(|_| *r.pick(&strs)).collect();
